@@ -16,8 +16,10 @@ one() {
   d=$1; name=$(basename $d)
   pid=$(python3 -c "import json;print(json.load(open('$d/meta.json'))['property'])")
   rules=$(python3 -c "import json;print(' '.join(json.load(open('$d/meta.json'))['caught_by']))")
-  if ! (cd $BASE && patch -p1 -s -F3 --dry-run < $d/patch.diff) >/dev/null 2>&1; then echo "$name: skipped (does not apply on the refactored tree)"; return; fi
-  S=$(mktemp -d /tmp/vfscratch-combo-XXXX); rsync -a $BASE/ $S/; (cd $S && patch -p1 -s -F3 --no-backup-if-mismatch < $d/patch.diff) >/dev/null 2>&1
+  # little fuzz only: a hunk that needs more lands on other lines of the refactored function and is a different change
+  if ! (cd $BASE && patch -p1 -s -F1 --dry-run < $d/patch.diff) >/dev/null 2>&1; then echo "$name: skipped (does not apply on the refactored tree)"; return; fi
+  S=$(mktemp -d /tmp/vfscratch-combo-XXXX); rsync -a $BASE/ $S/; (cd $S && patch -p1 -s -F1 --no-backup-if-mismatch < $d/patch.diff) >/dev/null 2>&1
+  if ! python3 /verif/tools/syntax_ok.py $S >/dev/null 2>&1; then echo "$name: skipped (does not compile together with the refactorings)"; rm -rf $S; return; fi
   res=""
   for r in $rules; do
     c=${r%%.*}
